@@ -139,6 +139,12 @@ def run(ck, rng, tier):
             nthb = rng.choice([t for t in (1, 2, 4) if its % t == 0])
             cmd, cmd2 = "boot %s %d %d %d" % (head, grp, its, nthb), "boot %s %d %d %d" % (head2, grp, its, nthb)
             folds = None
+        # a training part with fewer objects than coefficients (MLR: variables + 1) does not determine a model: the
+        # prediction is then not a function of the training data alone and the refit clause says nothing
+        biggest = max(len(f) for f in folds) if folds is not None else -(-n // grp)
+        if algo == 4 and n - biggest < m + 2:
+            ck.count("skipped: training part smaller than the number of MLR coefficients + 1")
+            continue
         rc, o2, err = vf.run_driver(exe, cmd + "\n" + cmd2 + "\n", timeout=300)
         if rc != 0 or len(o2) != 2:
             ck.fail("CV/" + scheme, "crash_" + ALGOS[algo], "driver aborted (rc %s): %s" % (rc, err.strip().splitlines()[-1] if err.strip() else ""), {"cmd": cmd})
